@@ -58,6 +58,14 @@ Definition digit (n : Z) : byte := byte_of_N (Z.to_N (48 + n mod 10)).
 Definition dec2 (n : Z) : bytes := [digit (n / 10); digit n].
 Definition dec4 (n : Z) : bytes := [digit (n / 1000); digit (n / 100); digit (n / 10); digit n].
 
+(* time's appendInt(year, 4): at least four digits (years from 10000 on take more) *)
+Fixpoint dec_digits (fuel : nat) (n : Z) (acc : bytes) : bytes :=
+  match fuel with
+  | O => acc
+  | S f => if n <? 10 then digit n :: acc else dec_digits f (n / 10) (digit n :: acc)
+  end.
+Definition dec_year (y : Z) : bytes := if y <? 10000 then dec4 y else dec_digits 24 y [].
+
 (* civil date from the number of days since 1970-01-01 (proleptic Gregorian calendar) *)
 Definition civil_from_days (days : Z) : Z * Z * Z :=
   let z := days + 719468 in
@@ -71,16 +79,17 @@ Definition civil_from_days (days : Z) : Z * Z * Z :=
   let y := yoe + era * 400 + (if m <=? 2 then 1 else 0) in
   (y, m, d).
 
-(* time.Unix(t,0).UTC().Format(time.RFC3339); meant for 0 <= t < 253402300800 (years 1970..9999) *)
+(* time.Unix(t,0).UTC().Format(time.RFC3339); meant for t >= 0 *)
 Definition rfc3339 (t : Z) : bytes :=
   let days := t / 86400 in
   let s := t mod 86400 in
   let '(y, m, d) := civil_from_days days in
-  dec4 y ++ [x2d] ++ dec2 m ++ [x2d] ++ dec2 d ++ [x54]
+  dec_year y ++ [x2d] ++ dec2 m ++ [x2d] ++ dec2 d ++ [x54]
   ++ dec2 (s / 3600) ++ [x3a] ++ dec2 (s mod 3600 / 60) ++ [x3a] ++ dec2 (s mod 60) ++ [x5a].
 
 Example rfc3339_epoch : rfc3339 0 = bs "1970-01-01T00:00:00Z". Proof. reflexivity. Qed.
 Example rfc3339_leap : rfc3339 951782400 = bs "2000-02-29T00:00:00Z". Proof. reflexivity. Qed.
+Example rfc3339_year_10000 : rfc3339 253402300800 = bs "10000-01-01T00:00:00Z". Proof. reflexivity. Qed.
 Example rfc3339_last : rfc3339 253402300799 = bs "9999-12-31T23:59:59Z". Proof. reflexivity. Qed.
 
 Local Close Scope Z_scope.
